@@ -341,6 +341,131 @@ def rule_undefined_labels(chk, prog, tier):
     r.exhaustive = True
 
 
+# ------------------------------------------------------------------ C03.k the block chain while f->end is redirected
+
+def rule_block_chain(chk, prog, tier):
+    r = chk.rule('C03.k', 'blocks are only ever appended at f->end (funclabel); code that points f->end somewhere else for a while (funcalloc places allocations in the start block) saves it AFTER everything that can append blocks has run '
+                 'and appends none until it is restored - otherwise the blocks created in between drop out of the chain and the function is printed with jumps to labels that do not exist', floor=1)
+    import cfg
+    from facts import walk as _walk, unwrap_all as _ua, children as _ch
+    nr, graphs = cfg.cfgs(prog)
+    callees = {}
+    for fn in prog.all_funcs():
+        callees[fn['name']] = {cfg.callee_name(c) for c in _walk(fn) if c.get('kind') == 'CallExpr'} - {None}
+    app = {'funclabel'}
+    changed = True
+    while changed:
+        changed = False
+        for f_, cs in callees.items():
+            if f_ in ('error', 'fatal'): continue
+            if f_ not in app and cs & app: app.add(f_); changed = True
+    if 'funcexpr' not in app or 'calcvla' not in app:
+        raise AnalysisBroken('closure of funclabel lost funcexpr / calcvla')
+    def is_end(m):
+        m = _ua(m)
+        return m.get('kind') == 'MemberExpr' and m.get('name') == 'end' and 'struct func' in _ch(m)[0].get('type', {}).get('qualType', '')
+    n = 0
+    for fn in prog.all_funcs():
+        if fn['_file'] != 'qbe.c' or fn['name'] in ('funclabel', 'mkfunc'): continue
+        g = graphs[fn['id']]
+        stores = []; saves = {}
+        for node in g.nodes:
+            if node.ast is None: continue
+            for b in _walk(node.ast):
+                if b.get('kind') == 'BinaryOperator' and b.get('opcode') == '=':
+                    lhs, rhs = _ch(b)
+                    if is_end(lhs): stores.append((node, _ua(rhs)))
+                    elif is_end(rhs) and _ua(lhs).get('kind') == 'DeclRefExpr': saves[_ua(lhs)['referencedDecl']['id']] = node
+        if not stores: continue
+        restores = [(node, rhs) for node, rhs in stores if rhs.get('kind') == 'DeclRefExpr' and rhs['referencedDecl']['id'] in saves]
+        if not restores:
+            r.violation('block-chain:%s' % fn['name'], '%s:%s' % (fn['_file'], stores[0][0].line), '%s() assigns f->end and never restores a saved value' % fn['name']); continue
+        for rnode, rhs in restores:
+            snode = saves[rhs['referencedDecl']['id']]
+            # nodes strictly between the save and the restore
+            fwd = set(); work = [m for m, _ in snode.succ]
+            while work:
+                x = work.pop()
+                if x.id in fwd or x.id == rnode.id: continue
+                fwd.add(x.id); work.extend(m for m, _ in x.succ)
+            bwd = set(); work = [m for m, _ in rnode.pred]
+            while work:
+                x = work.pop()
+                if x.id in bwd or x.id == snode.id: continue
+                bwd.add(x.id); work.extend(m for m, _ in x.pred)
+            bad = []
+            for i in sorted(fwd & bwd):
+                x = g.nodes[i]
+                if x.ast is None: continue
+                # funcinst appends (a `dead` block) only when the block it writes to is already terminated: that case is decided on the scenarios of C03.l
+                bad += ['%s() at line %s' % (cfg.callee_name(c), c.get('line') or x.line) for c in _walk(x.ast) if c.get('kind') == 'CallExpr' and cfg.callee_name(c) in app and cfg.callee_name(c) != 'funcinst']
+            n += 1
+            r.instance(not bad, 'block-chain:%s saves f->end at line %s, restores it at line %s' % (fn['name'], snode.line, rnode.line), '%s:%s' % (fn['_file'], snode.line),
+                       'between the save and the restore %s can append blocks: they are unlinked when f->end is put back' % ', '.join(bad))
+    if n == 0:
+        raise AnalysisBroken('no save/restore of f->end found (funcalloc expected)')
+    r.samples.append('%d functions can append a block' % len(app))
+    r.exhaustive = True
+
+
+# ------------------------------------------------------------------ C03.l funcalloc keeps the chain whole
+
+def rule_alloc_chain(chk, prog, tier):
+    r = chk.rule('C03.l', 'after funcalloc every block that was created is still in the chain start -> ... -> f->end, f->end is its last element, and the one alloc instruction that defines the object\'s address is in one of them - '
+                 'for constant-size objects, variable-length arrays whose size is already known or still to be computed (with control flow in the length expression), whether or not the current block is already terminated', floor=20)
+    fn = prog.require_func('funcalloc', 'qbe.c')
+    names = cmodel.instnames(prog)
+    for kind in ('constant', 'vla-size-known', 'vla-size-computed', 'vla-length-with-branches'):
+        for terminated in (False, True):
+            for align in (4, 16, 32):
+                def runner(it):
+                    w = World(prog, it=it, target='x86_64-sysv')
+                    created = []; insts = {}
+                    def xmalloc(i2, a, e):
+                        o = Obj('heap@%s' % e.get('line'), 'heap'); created.append(o); return Ptr(o, ())
+                    def arrayaddptr(i2, a, e):
+                        insts.setdefault(a[0].obj.id, []).append(a[1]); return None
+                    it.models.update({'xmalloc': xmalloc, 'arrayaddptr': arrayaddptr, 'mkintconst': lambda i2, a, e: ('const', a[0]),
+                                      'error': lambda i2, a, e: (_ for _ in ()).throw(Terminal('error', cmodel.fmt_of(i2, a, 1))),
+                                      'fatal': lambda i2, a, e: (_ for _ in ()).throw(Terminal('fatal', cmodel.fmt_of(i2, a, 0)))})
+                    f = Obj('func', 'heap'); f.f[('lastid',)] = 0
+                    start = it.call('mkblock', [None]); body = it.call('mkblock', [None])
+                    f.f[('start',)] = start; f.f[('end',)] = start
+                    it.call('funclabel', [Ptr(f, ()), body])
+                    if terminated: body.obj.f[('jump', 'kind')] = ev(prog, 'JUMP_JMP')
+                    PV = ev(prog, 'PROPVM')
+                    if kind == 'constant':
+                        t = w.mkstruct(size=24, align=8)
+                    else:
+                        t = it.call('mkarraytype', [w.t('int'), 0, 0]); t.obj.f[('incomplete',)] = 0; t.obj.f[('size',)] = 0; t.obj.f[('prop',)] = PV
+                        if kind == 'vla-size-known': t.obj.f[('u', 'array', 'size')] = cmodel.val('size')
+                        else: t.obj.f[('u', 'array', 'length')] = w.temp(w.t('int'), 'n')
+                    def funcexpr(i2, a, e):
+                        # evaluating the length: plain code, or code with a branch that appends blocks (n > 0 ? n : 1)
+                        if kind == 'vla-length-with-branches':
+                            for _ in range(2): i2.call('funclabel', [a[0], i2.call('mkblock', [None])])
+                        return i2.call('funcinst', [a[0], ev(prog, 'ICOPY'), ord('w'), cmodel.val('n'), None])
+                    it.models['funcexpr'] = funcexpr
+                    it.models['convert'] = lambda i2, a, e: a[3]
+                    d = Obj('decl', 'heap'); d.f.update({('type',): t, ('u', 'obj', 'align'): align, ('value',): None, ('kind',): ev(prog, 'DECLOBJECT')})
+                    it.call(fn, [Ptr(f, ()), Ptr(d, ())])
+                    chain = []; b = f.f[('start',)]
+                    while b is not None and len(chain) < 50: chain.append(b.obj); b = b.obj.f.get(('next',))
+                    blocks = [o for o in created if ('label', 'kind') in o.f]
+                    lost = [o for o in blocks if o not in chain]
+                    allocs_in_chain = [i for o in chain for i in insts.get(o.id, []) if names.get(i.obj.f.get(('kind',)), '').startswith('IALLOC')]
+                    allocs_all = [i for lst in insts.values() for i in lst if names.get(i.obj.f.get(('kind',)), '').startswith('IALLOC')]
+                    return len(lost), f.f[('end',)].obj is chain[-1], len(allocs_in_chain), len(allocs_all), d.f[('value',)] is not None
+                runs = explore(prog, runner, {}, max_runs=4, on_unsupported='keep')
+                key = 'alloc-chain:%s,%s,align %d' % (kind, 'current block terminated' if terminated else 'current block open', align)
+                if len(runs) != 1 or runs[0].outcome != 'return':
+                    raise AnalysisBroken('%s: %s' % (key, [(x.outcome, x.detail) for x in runs][:2]))
+                lost, endlast, ain, aall, hasval = runs[0].value
+                r.instance(lost == 0 and endlast and ain == 1 and aall == 1 and hasval, key, 'qbe.c:%s' % fn.get('line'),
+                           '%d block(s) created during the call are no longer reachable from the start block; f->end is %sthe last block of the chain; %d of %d alloc instruction(s) are in the chain' % (lost, '' if endlast else 'NOT ', ain, aall))
+    r.exhaustive = False
+
+
 # ------------------------------------------------------------------ C03.j the printer
 
 def rule_printer(chk, prog, tier):
@@ -479,5 +604,9 @@ def run(chk, tier):
     chk.guard('C03.e', lambda: c19.rule_flush(chk, prog, tier))
     chk.guard('C03.i', lambda: rule_undefined_labels(chk, prog, tier))
     chk.guard('C03.j', lambda: rule_printer(chk, prog, tier))
+    chk.guard('C03.k', lambda: rule_block_chain(chk, prog, tier))
+    chk.guard('C03.l', lambda: rule_alloc_chain(chk, prog, tier))
     from props import c07
     chk.guard('C07.b', lambda: c07.rule_emitdata(chk, prog, tier))          # a data definition has exactly the size of the object: items and zero padding add up
+    from props import c09
+    chk.guard('C09.k', lambda: c09.rule_tentative_objects(chk, prog, tier))   # ... with the alignment of the (completed) type: `align 0` is not valid for the backend
